@@ -189,6 +189,21 @@ def followOk (dia : Dialect) (ctx : Str) : Bool :=
   | [] => true
   | c :: _ => isWs c || (dia == .cif2 && (c == 93 || c == 125))
 
+/-- what may follow presentation `p`: a whitespace-delimited value ends only at whitespace or at the end of input
+    (a closing bracket after it is admissible too in CIF 2.0, but is not covered by the theorems here) -/
+def followOkP (dia : Dialect) (p : Presentation) (ctx : Str) : Bool :=
+  match p with
+  | .bare => (match ctx with | [] => true | c :: _ => isWs c)
+  | _ => followOk dia ctx
+
+/-- where presentation `p` of `s` may start: a text field's semicolon begins a line, a whitespace-delimited value that
+    begins with a semicolon does not -/
+def startOk (p : Presentation) (s : Str) (col : Nat) : Bool :=
+  match p with
+  | .text => col == 0
+  | .bare => semiOk s col
+  | _ => true
+
 /-- lines (1-based, counted from `line`) of `units` that are terminated and hold more than 2048 characters -/
 def longLinesAux : Nat → Nat → Bool → Str → List Nat
   | _, _, _, [] => []
